@@ -613,7 +613,7 @@ Contract(
                                                         err_code(D) == V.I(-32700), V.is_none(get(D, "id")),
                                                         _not_called(c)))(c.gnew("last_dumped"))))))),
          ("C02", "C03", "C05", "C08", "C13")),
-        ("raises_only_if_backend_rejects_reply", lambda c: implies(c.raised, c.raises(TypeError)), ("C02",)),
+        ("raises_only_if_backend_rejects_reply", lambda c: implies(c.raised, c.raises(TypeError)), ("C02", "C05", "C08")),
         ("inert_translator_when_disabled", lambda c: implies(
             z3.Not(V.truthy(c.old(c.old(c.a.self, "json_config"), "use_jsonclass"))),
             z3.And(c.gnew("imports") == c.gold("imports"), c.gnew("constructs") == c.gold("constructs"))), ("C08",)),
